@@ -129,3 +129,13 @@ claim('C32', 'table rule over the resolved arms of Predicate::invert / and / or 
       '(2 known findings: General<=/>= are inverted to each other).',
       'Nested predicate trees, Or-sets and absorption are not decided.',
       'DESIGN.md §3 C32')
+
+claim('C17', 'table agreement across crates: characters produced by the lexer escape arms vs the replace chain of PyScriptGenerator::escape_str',
+      'Decides the clause "string literals with arbitrary contents": every unescaped character that cannot stand raw in a Python literal must be escaped by the transpiler '
+      '(2 known findings: `"` and `\\`).',
+      'Behavioural equivalence of the transpiled script and the compiled bytecode is not decided.',
+      'DESIGN.md §3 C17')
+claim('C18', 'flow rule inside JsonGenerator: value / literal text must pass a JSON encoder before reaching the output',
+      'Decides that every literal or value text written into the JSON output is encoded (3 known findings: none is today, so True/None/quotes yield invalid JSON).',
+      'That the emitted values equal the constant initializers is not decided.',
+      'DESIGN.md §3 C18')
